@@ -53,5 +53,121 @@ CHECKS["C10"] = {
     ],
 }
 
+def _srv(pid, claim, rule, note, quick_checks=3000, thorough_checks=40000, size=120, extra_assumptions=None):
+    return {
+        "level": "exploration",
+        "claim": claim,
+        "level_note": note,
+        "technique": "stateful property-based testing (rapid-generated scripts, shrinking) of the real turn.Server under virtual time (testing/synctest) over an in-memory network, judged by the reference model M-server and wire-log monitors",
+        "rule": rule,
+        "assumptions": extra_assumptions or [],
+        "stages": [
+            {"name": "world", "pkg": "srvworld", "run": "^Test%s$" % pid,
+             "quick": {"shards": 4, "checks": quick_checks, "timeout_s": 420},
+             "thorough": {"shards": 16, "checks": thorough_checks, "size": size, "timeout_s": 2400}},
+        ],
+    }
+
+
+_SRV_NOTE = ("Trusted: simnet (harness/sim), the reference model (harness/srvworld/model.go), the hand-written STUN codec "
+             "(harness/ref). Library state listings are read through reflection by type and used only as cross-checks. "
+             "Bounded search: script length, actors and case count; no absence claim.")
+
+CHECKS["C01"] = _srv(
+    "C01",
+    "Generated multi-client histories (Allocate/Refresh/CreatePermission/ChannelBind/Send/ChannelData/sleeps placed 1-2 s "
+    "before and after model deadlines, vetoed and wrong-family peers, same-IP-other-port peers, other clients' channel numbers) "
+    "against a real server; after every step every datagram that left any relay socket must be the one the model authorises "
+    "(right relay socket, right peer, caused by this step), and refused CreatePermission/ChannelBind must leave no permission "
+    "or binding in the library's own listing.",
+    "a case is a script (config + steps); non-trivial = the client holds an allocation and the script contains at least one "
+    "emission probe the model says must be dropped and at least one it says must be relayed; distinct by hash of the script",
+    _SRV_NOTE)
+
+CHECKS["C02"] = _srv(
+    "C02",
+    "Generated histories weighted toward peer->relay datagrams from every pool address (same IP other port, other IP same port, "
+    "vetoed, other family, strangers) at instants on both sides of permission/channel/allocation deadlines; after each peer "
+    "datagram the set of messages at ALL client endpoints must be exactly one message at the owner iff the model holds a live "
+    "permission for the sender's IP or a live binding for its exact address, and nothing anywhere otherwise.",
+    "non-trivial = at least one unauthorised arrival while another authorisation is live in the same allocation, and at least one "
+    "authorised arrival; distinct by script hash",
+    _SRV_NOTE + " TCP-allocation (connection) part of the statement is exercised by the C16 world.")
+
+CHECKS["C04"] = _srv(
+    "C04",
+    "2-4 scripted clients with colliding attributes (same IP other port, same user on several 5-tuples, identical channel numbers, "
+    "peers, reused transaction ids) interleave requests and data; after every step only the acting client's model state and "
+    "library listing may change, responses go only to the requester, relayed traffic only to the owner of the relayed address, "
+    "AllocationCount equals the number of live 5-tuples and a second Allocate gets 437.",
+    "non-trivial = >=2 clients hold allocations and at least one cross-probe (other client's channel number, reused transaction id, "
+    "other user's credentials on a live 5-tuple, a 437, or an unauthorised peer arrival while another authorisation is live)",
+    _SRV_NOTE)
+
+CHECKS["C05"] = _srv(
+    "C05",
+    "Payload lengths 0..72, 1400..1700 (dense around 1500/1600), powers of two +-1 up to 65507, contents that look like STUN / "
+    "ChannelData headers, both directions, both encapsulations, generated InboundMTU; multiset oracle: every authorised datagram "
+    "arrives exactly once and byte-identical (or, only when above the documented size limits, not at all), with truthful "
+    "XOR-PEER-ADDRESS / channel number and the relayed address as source; ChannelData length field and zero padding checked.",
+    "non-trivial = relayed (not dropped) and the payload length is not a multiple of 4, or within the 1480..1720 buffer zone, or "
+    "the content imitates a TURN header",
+    _SRV_NOTE + " Stream (TCP control connection) transport between client and server is covered by the C10 framer check and the C16 world.",
+    quick_checks=2500, thorough_checks=25000, size=60)
+
+CHECKS["C06"] = _srv(
+    "C06",
+    "LIFETIME classes (absent, 0, 1, 59..61, 599..601, 3599..3601, 86400, 2^31, 2^32-1, random) x configured defaults x refresh "
+    "chains, with sleeps placed 1-2 s before and after the model deadline (tie-free virtual clock); granted LIFETIME must follow "
+    "the documented rule, the allocation must refresh/relay/count before the deadline and be gone after it (no success, nothing "
+    "relayed, relay socket closed, AllocationCount dropped, nothing carried over to a re-Allocate).",
+    "non-trivial = at least one successful refresh and probes on both sides of an allocation deadline",
+    _SRV_NOTE)
+
+CHECKS["C07"] = _srv(
+    "C07",
+    "Independent permission/channel timeouts, install/refresh sequences by CreatePermission and ChannelBind, probes in both "
+    "directions 1-2 s before and after each entry's model deadline, re-binds after expiry; library listings must equal the model "
+    "after every step (a refused request must install nothing, a successful one restarts the full timeout).",
+    "non-trivial = some entry is refreshed at least once and probed on both sides of a permission or channel deadline",
+    _SRV_NOTE)
+
+CHECKS["C08"] = _srv(
+    "C08",
+    "ChannelBind-heavy histories over a channel slot pool covering every number class (range edges 0x3FFF/0x4000/0x7FFF/0x8000, "
+    "0, 1, 0xFFFF) and peers differing only in port, in 1-3 allocations; success iff in range and conflict-free, both conflict "
+    "kinds and out-of-range must be 400 and change nothing; ListChannelBindings must be injective both ways, in range and equal to "
+    "the model after every step; every ChannelData reaching a client carries the number bound to the true source.",
+    "non-trivial = at least one accepted bind and at least one conflict of either kind or an out-of-range attempt",
+    _SRV_NOTE)
+
+CHECKS["C15"] = _srv(
+    "C15",
+    "Histories with every teardown cause (expiry, Refresh 0, relay socket read error, Server.Close) injected at generated points, "
+    "slow lifecycle callbacks (virtual sleeps), coincident timeouts; at every quiescent point the open relay sockets handed out by "
+    "the harness generator must be exactly those of the model's live allocations, AllocationCount must match, and created/deleted "
+    "callbacks must pair one-to-one with the model's live objects.",
+    "non-trivial = a teardown happens in a history that created at least one permission and one channel",
+    _SRV_NOTE + " Goroutine drain of the bubble and TCP resources are judged in the C16/C18 worlds.")
+
+CHECKS["C19"] = _srv(
+    "C19",
+    "Every response the listener writes is matched against the request delivered in that step: destination = request source, same "
+    "transaction id and method, at most one; Binding/Allocate mapped address = true source (IPv4 and IPv6 listeners); Allocate "
+    "success: LIFETIME rule, relayed address = a socket bound for this request, open, unshared; EVEN-PORT/RESERVATION-TOKEN; "
+    "retransmitted Allocate = identical attributes and unchanged state; different transaction id = 437 and unchanged state.",
+    "non-trivial = >=2 clients, at least one error path and at least one retransmitted or 437 Allocate",
+    _SRV_NOTE)
+
+CHECKS["C03"] = _srv(
+    "C03",
+    "Each request method x server state x credential defect (no MESSAGE-INTEGRITY, wrong/other user's password, unknown user, "
+    "truncated/extended/bit-flipped HMAC, message altered after signing, missing USERNAME/REALM/NONCE, random/forged/bit-mutated/"
+    "expired/other-instance nonce, no auth handler, other user's valid credentials on a live 5-tuple): the state fingerprint "
+    "(AllocationCount, listings, events, open relay sockets) must be unchanged, the response never success, 401/438 challenges "
+    "must carry the configured realm and a nonce that is accepted when used immediately.",
+    "non-trivial = a defective request was judged in a history in which an allocation exists",
+    _SRV_NOTE + " Cryptographic forgery is out of scope; MAC collisions are not searched.")
+
 _NOT_BUILT = "check not built yet in this round (planned, see DESIGN.md section 4)"
 PENDING = {("C%02d" % i): _NOT_BUILT for i in range(1, 21)}
